@@ -172,7 +172,7 @@ from gen import Gen
 
 POSITIONS = ["field", "vec", "option", "hashmap-value", "array", "slice", "generic-arg", "nested-generic", "box",
              "tuple-variant", "struct-variant-field", "alias-target", "alias-vec", "unknown-generic", "same-head-nested", "pair-with-own-param",
-             "hashmap-key", "hashmap-key-nested", "pair-first", "option-vec-map"]
+             "hashmap-key", "hashmap-key-nested", "pair-first", "option-vec-map", "alias-generic"]
 # positions `get_dependencies` does not look into (open known finding `uncovered-reference-positions`)
 ORDER_LANGS = ["typescript", "python", "kotlin", "swift", "go"]
 
@@ -183,6 +183,8 @@ def ref_type(pos, target):
         return t
     if pos in ("vec", "alias-vec"):
         return t_path("Vec", [t])
+    if pos == "alias-generic":
+        return t_path("Wrap", [t])                       # an alias whose target is an instantiation of a user-defined generic type
     if pos == "option":
         return t_path("Option", [t])
     if pos == "hashmap-value":
@@ -224,7 +226,7 @@ def build_program(rng, n, edges, renamed=(), const_alias=False):
         mine = [e for e in edges if e[0] == i]
         if any(p in ("tuple-variant", "struct-variant-field") for _, _, p in mine):
             kinds.append("enum")
-        elif mine and all(p in ("alias-target", "alias-vec") for _, _, p in mine):
+        elif mine and all(p in ("alias-target", "alias-vec", "alias-generic") for _, _, p in mine):
             kinds.append("alias")
         elif not mine and rng.random() < 0.4:
             kinds.append("alias-leaf")      # an alias of a primitive: referred to, refers to nothing
@@ -317,7 +319,7 @@ def order_part(check):
                 mine = [e for e in edges if e[0] == i]
                 if mine and rng.random() < 0.5:
                     keep = rng.choice(mine)
-                    edges = [e for e in edges if e[0] != i] + [(i, keep[1], rng.choice(["alias-target", "alias-vec"]))]
+                    edges = [e for e in edges if e[0] != i] + [(i, keep[1], rng.choice(["alias-target", "alias-vec", "alias-generic"]))]
         renamed = [i for i in range(n) if rng.random() < 0.1]
         const_alias = rng.random() < 0.3
         f, names = build_program(rng, n, edges, renamed, const_alias=const_alias)
@@ -397,9 +399,9 @@ _run_graphs = run
 
 def run(check):
     _run_graphs(check)
-    if not check.violations:
+    if not check.has_failing():
         order_part(check)
-    if not check.violations:
+    if not check.has_failing():
         multi_crate_part(check)
     check.rule += ("; end to end: programs of 2-8 (thorough 10) items whose reference graph (DAGs and cyclic) is placed at 13 kinds of "
                    "positions (field, Vec, Option, HashMap value, array, slice, generic argument, nested generic argument, Box, tuple "
